@@ -368,6 +368,10 @@ class Runner:
         out = self.call(lambda: self.A(s, *[P.build_sarg(a, self.mod) for a in sargs]))
         self.count('new', out)
         viol = self.c09(out, 'new', repr((s, sargs)))
+        if out[0] == 'err' and not sargs:
+            # parsing a str never fails: what is not understood is kept as text or thrown out
+            viol.append(('C02', 'parse_total', 'AnsiString(%r) raises %r' % (s, out[1])))
+            viol.append(('C09', 'parse_total', 'AnsiString(%r) raises %r' % (s, out[1])))
         if out[0] == 'ok':
             x = out[1]
             if not sargs:
@@ -1081,6 +1085,9 @@ class Runner:
         out = self.call(lambda: self.A(s))
         self.count('roundtrip', out)
         viol = self.c09(out, 'roundtrip', repr(s))
+        if out[0] == 'err':
+            viol.append(('C03', 'roundtrip_total', 'AnsiString(str(v)) raises %r for %r' % (out[1], s)))
+            viol.append(('C09', 'parse_total', 'AnsiString(%r) raises %r' % (s, out[1])))
         if out[0] == 'ok':
             y = out[1]
             if '\x1b' not in x._s and all(T.is_group(t) for ac in O.acts(x) for t in O.texts(ac)):
